@@ -124,3 +124,34 @@ PROPS['C17'] = dict(
     assumptions=COMMON + ['matplotlib and the body of plot() are outside E1: the composite claim (curve through the predicted flux, number of curves, best fit last) is decided by the bounded run'],
     explanation='E2 (bounded) decides the property on the real plot(). E1 proves the helper contracts it composes: scale_to_distance (inverse square, copy), scale_to_av (10^(A_V k)), '
                 'SED.interpolate, Extinction.get_av.')
+
+FIFN = 'sedfitter.fit_info.FitInfoFile.'
+T_EVENT = 'T-LOOP-EVENT: uniform-iteration rule of sedvc/loops.py (EventLoop): per-iteration facts proved for an arbitrary iteration compose sequentially in iteration order'
+D_PICKLE = ('dep: pickle framing (sedvc/files.py): dump appends one self-delimiting frame; load returns the next complete frame, raises EOFError at the end, and EOFError or '
+            'UnpicklingError -- never an object -- for an incomplete frame; validated by the exhaustive truncation run of C19')
+PROPS['C19'] = dict(
+    level='fault_enumeration',
+    e1=[FIFN + '__init__', FIFN + '__iter__', FIFN + 'write'],
+    e2=('rtc.io_props', 'run_c19'),
+    assumptions=COMMON + [T_EVENT, D_PICKLE],
+    explanation='Fault enumeration (E2): every truncation offset of real files written by the real FitInfoFile (1..3/4 records, with/without predicted fluxes, plus a 70000-fit record). '
+                'E1 proves, given the pickle framing contract: every record is exactly one frame holding that object, metadata written once before the first record; the reader yields '
+                'exactly the next complete frame per iteration, stops only at the end of the complete frames, never yields for an incomplete frame and lets UnpicklingError propagate.')
+PROPS['C18'] = dict(
+    level='other',
+    e1=['sedfitter.filter_output.filter_output', FIFN + '__init__', FIFN + 'write', FIFN + '__iter__', SRC + 'n_data'],
+    e2=('rtc.pipe_props', 'run_c18'),
+    assumptions=COMMON + [T_EVENT, D_PICKLE, 'every record holds at least one fit and n_data >= 1 (property quantifier); a zero threshold is treated by the code as "not given"',
+                          'that untouched output files of an earlier run are not mistaken for output (file truncation on open) is decided by the bounded run'],
+    explanation='E1: for an arbitrary record of the input exactly one write happens, of that very (unmodified) object, to the good file if the criterion quantity is below the threshold and to '
+                'the bad file if above (chi: best chi^2; cpd: best chi^2 / n_data with n_data counting flags 1 and 4); automatic names; refusal of non-file input without names. '
+                'E2: files read back, order within each file, reused output names.')
+PROPS['C10'] = dict(
+    level='other',
+    e1=['sedfitter.fit.fit', 'sedfitter.fit.Fitter.fit', FIFN + '__init__', FIFN + 'write', FIFN + '__iter__', SRC + 'from_ascii', SRC + 'n_data', FI + 'keep'],
+    e2=('rtc.pipe_props', 'run_c10'),
+    assumptions=COMMON + [T_EVENT, D_PICKLE, 'Fitter.__init__ (Models.read: file I/O) is assumed; the numeric domain conditions of Fitter.fit / keep on the data lines are assumptions of the orchestration proof',
+                          'interchangeability of file / object / list in the six post-processing functions and the text outputs are decided by the bounded run'],
+    explanation='E1: the main loop of fit(): for an arbitrary input line -- end of input (< 3 columns) stops; a source with n_data >= n_data_min is fitted (that source, the fitter settings), '
+                'stripped of predicted fluxes unless requested, cut by the output selector and written exactly once; any other source writes nothing; malformed lines are errors. FitInfoFile: '
+                'one frame per record, metadata once, in-memory results are yielded as copies (the objects of the caller are never handed to consumers). E2: real files, three input forms, call sequences.')
